@@ -16,6 +16,7 @@ import (
 	seg "github.com/scionproto/scion/pkg/segment"
 	"github.com/scionproto/scion/pkg/slayers/path/scion"
 	"github.com/scionproto/scion/private/path/combinator"
+	"github.com/scionproto/scion/private/topology"
 
 	"verifharness/internal/segs"
 	"verifharness/internal/vt"
@@ -101,6 +102,13 @@ func distinctPeerHops(rng *rand.Rand, ps *seg.PathSegment) *seg.PathSegment {
 	return c
 }
 
+func cap9(l []*seg.PathSegment) []*seg.PathSegment {
+	if len(l) > 6 {
+		return l[:6]
+	}
+	return l
+}
+
 func subset(rng *rand.Rand, l []*seg.PathSegment, maxN int) []*seg.PathSegment {
 	out := append([]*seg.PathSegment{}, l...)
 	rng.Shuffle(len(out), func(i, j int) { out[i], out[j] = out[j], out[i] })
@@ -125,11 +133,38 @@ func main() {
 	pairs := flag.Int("pairs", 4, "src/dst pairs per topology")
 	maxSegs := flag.Int("maxsegs", 6, "max up / down segments per call")
 	maxCores := flag.Int("maxcores", 8, "max core segments per call")
+	dupPairs := flag.Int("duppairs", 2, "pairs of the re-beaconed-duplicates family per hand-shaped topology")
 	withTopo := flag.Bool("topo", false, "log the topology description with every case (debugging)")
 	flag.Parse()
 	w := vt.NewWriter(*out)
 	defer w.Close()
 	caseNo := 0
+	emit := func(i int, t *segs.Topo, src, dst addr.IA, ups, cs, downs []*seg.PathSegment, all bool) {
+		caseNo++
+		rs := vt.M{"ev": "reset", "case": caseNo, "topology": i}
+		if *withTopo {
+			rs["topo"] = t.Describe()
+		}
+		w.Emit(rs)
+		ev := vt.M{"ev": "combine", "src": segs.IAStr(src), "dst": segs.IAStr(dst), "all": all,
+			"ups": segs.SegsJSON(ups, base), "cores": segs.SegsJSON(cs, base),
+			"downs": segs.SegsJSON(downs, base)}
+		func() {
+			defer func() {
+				if r := recover(); r != nil {
+					ev["ev"] = "panic"
+					ev["what"] = fmt.Sprint(r)
+				}
+			}()
+			res := combinator.Combine(src, dst, ups, cs, downs, all)
+			ps := make([]vt.M, 0, len(res))
+			for _, p := range res {
+				ps = append(ps, pathJSON(p))
+			}
+			ev["paths"] = ps
+		}()
+		w.Emit(ev)
+	}
 	for i := 0; i < *n; i++ {
 		rng := vt.Rand(int64(i))
 		o := segs.DefaultOpts()
@@ -145,8 +180,11 @@ func main() {
 		down := map[addr.IA][]*seg.PathSegment{}
 		var cores []*seg.PathSegment
 		runs := 1 + rng.Intn(3)
+		if i%6 == 5 {
+			runs = 3
+		}
 		for r := 0; r < runs; r++ {
-			if r > 0 && rng.Intn(3) != 0 {
+			if r > 0 && (rng.Intn(3) != 0 || i%6 == 5) {
 				perturb(rng, t)
 			}
 			ts := base.Add(-time.Duration(rng.Intn(7200)) * time.Second)
@@ -189,31 +227,24 @@ func main() {
 			if rng.Intn(10) == 0 && len(downs) > 0 {
 				downs = append(downs, downs[rng.Intn(len(downs))])
 			}
-			all := rng.Intn(4) == 0
-			caseNo++
-			rs := vt.M{"ev": "reset", "case": caseNo, "topology": i}
-			if *withTopo {
-				rs["topo"] = t.Describe()
-			}
-			w.Emit(rs)
-			ev := vt.M{"ev": "combine", "src": segs.IAStr(src), "dst": segs.IAStr(dst), "all": all,
-				"ups": segs.SegsJSON(ups, base), "cores": segs.SegsJSON(cs, base),
-				"downs": segs.SegsJSON(downs, base)}
-			func() {
-				defer func() {
-					if r := recover(); r != nil {
-						ev["ev"] = "panic"
-						ev["what"] = fmt.Sprint(r)
+			emit(i, t, src, dst, ups, cs, downs, rng.Intn(4) == 0)
+		}
+		// directed family: re-beaconed duplicates (same interface sequences, other timestamps / expiries /
+		// MTUs) between ASes that BOTH have peering links, with and without findAllIdentical
+		if i%6 == 5 {
+			hasPeer := func(ia addr.IA) bool { return len(t.ASes[ia].SortedIfs(topology.Peer)) > 0 }
+			done := 0
+			for _, src := range t.Order {
+				for _, dst := range t.Order {
+					if src == dst || !hasPeer(src) || !hasPeer(dst) || done >= *dupPairs {
+						continue
 					}
-				}()
-				res := combinator.Combine(src, dst, ups, cs, downs, all)
-				ps := make([]vt.M, 0, len(res))
-				for _, p := range res {
-					ps = append(ps, pathJSON(p))
+					done++
+					for _, all := range []bool{false, true} {
+						emit(i, t, src, dst, cap9(down[src]), cap9(cores), cap9(down[dst]), all)
+					}
 				}
-				ev["paths"] = ps
-			}()
-			w.Emit(ev)
+			}
 		}
 	}
 	// directed family: segments close to the SCION limits (<= 64 hop fields per path, <= 63 per segment)
